@@ -40,36 +40,46 @@ func (f *planFamily) Interval() timeutil.Interval { return timeutil.Interval(10_
 
 type planDB struct {
 	tsdb.Database
-	e     *env
-	shard *planShardT
+	e      *env
+	shards []*planShardT
 }
 
 type planShardT struct {
 	tsdb.Shard
+	id  models.ShardID
 	e   *env
 	db  *planDB
 	fam *planFamily
 }
 
-func (d *planDB) MetaDB() index.MetricMetaDatabase           { return d.e.meta }
-func (d *planDB) Name() string                               { return "lvh" }
-func (d *planDB) ExecutorPool() *tsdb.ExecutorPool           { return &tsdb.ExecutorPool{} }
-func (d *planDB) GetLimits() *models.Limits                  { return models.NewDefaultLimits() }
-func (d *planDB) GetShard(models.ShardID) (tsdb.Shard, bool) { return d.shard, true }
+func (d *planDB) MetaDB() index.MetricMetaDatabase { return d.e.meta }
+func (d *planDB) Name() string                     { return "lvh" }
+func (d *planDB) ExecutorPool() *tsdb.ExecutorPool { return &tsdb.ExecutorPool{} }
+func (d *planDB) GetLimits() *models.Limits        { return models.NewDefaultLimits() }
+func (d *planDB) GetShard(id models.ShardID) (tsdb.Shard, bool) {
+	if int(id) < len(d.shards) {
+		return d.shards[id], true
+	}
+	return nil, false
+}
 
 func (s *planShardT) IndexDB() index.MetricIndexDatabase { return s.e.idx }
 func (s *planShardT) Database() tsdb.Database            { return s.db }
-func (s *planShardT) ShardID() models.ShardID            { return 0 }
+func (s *planShardT) ShardID() models.ShardID            { return s.id }
 func (s *planShardT) GetDataFamilies(timeutil.IntervalType, timeutil.TimeRange) []tsdb.DataFamily {
 	return []tsdb.DataFamily{s.fam}
 }
 
-// queryPlan runs one leaf query (cond may be nil: no WHERE clause) through the real stage plans.
-func (e *env) queryPlan(ns, name string, cond stmt.Expr, groupBy []string) (res queryResult) {
+// queryPlan runs one leaf query (cond may be nil: no WHERE clause) through the real stage plans, on
+// TWO shard contexts that share the storage-level context (TagFilterResult, group-by key ids) — as a
+// storage node does for a database with several shards; both shards read the same index database, so
+// the second shard's answer (res2) must equal the first one's.
+func (e *env) queryPlan(ns, name string, cond stmt.Expr, groupBy []string) (res, res2 queryResult) {
 	defer func() {
 		if r := recover(); r != nil {
 			res.err = fmt.Errorf("panic: %v", r)
 			res.stage = "panic"
+			res2 = res
 		}
 	}()
 	q := &stmt.Query{
@@ -85,12 +95,13 @@ func (e *env) queryPlan(ns, name string, cond stmt.Expr, groupBy []string) (res 
 	sctx := &flow.StorageExecuteContext{
 		Query:    q,
 		TaskCtx:  flow.NewTaskContextWithTimeout(context.Background(), time.Minute),
-		ShardIDs: []models.ShardID{0},
+		ShardIDs: []models.ShardID{0, 1},
 	}
 	defer sctx.TaskCtx.Release()
-	fam := &planFamily{}
 	db := &planDB{e: e}
-	db.shard = &planShardT{e: e, db: db, fam: fam}
+	for i := 0; i < 2; i++ {
+		db.shards = append(db.shards, &planShardT{id: models.ShardID(i), e: e, db: db, fam: &planFamily{}})
+	}
 	leafCtx := &qcontext.LeafExecuteContext{
 		TaskCtx:           sctx.TaskCtx,
 		StorageExecuteCtx: sctx,
@@ -114,30 +125,43 @@ func (e *env) queryPlan(ns, name string, cond stmt.Expr, groupBy []string) (res 
 	}
 	metaStage := stage.NewMetadataLookupStage(leafCtx)
 	if _, err := run(metaStage, "metadata"); err != nil {
-		return queryResult{err: err, stage: "metadata"}
+		r := queryResult{err: err, stage: "metadata"}
+		return r, r
 	}
 	next := metaStage.NextStages()
-	if len(next) != 1 {
-		return queryResult{err: fmt.Errorf("metadata stage produced %d shard stages", len(next)), stage: "plan"}
+	if len(next) != 2 || len(sctx.ShardContexts) != 2 {
+		r := queryResult{err: fmt.Errorf("metadata stage produced %d shard stages", len(next)), stage: "plan"}
+		return r, r
 	}
-	shctx := sctx.ShardContexts[0]
-	planned, err := run(next[0], "shard-scan")
-	if err != nil {
-		return queryResult{err: err, stage: "shard"}
-	}
-	if !planned || !fam.reached {
-		return queryResult{err: fmt.Errorf("shard scan plan did not reach the data family"), stage: "plan"}
-	}
-	res.series = fam.sel
-	if len(groupBy) == 0 {
+	shardRun := func(i int) (res queryResult) {
+		defer func() {
+			if r := recover(); r != nil {
+				res = queryResult{err: fmt.Errorf("panic: %v", r), stage: "panic"}
+			}
+		}()
+		shctx := sctx.ShardContexts[i]
+		fam := db.shards[i].fam
+		planned, err := run(next[i], "shard-scan")
+		if err != nil {
+			return queryResult{err: err, stage: "shard"}
+		}
+		if !planned || !fam.reached {
+			return queryResult{err: fmt.Errorf("shard scan plan did not reach the data family"), stage: "plan"}
+		}
+		res.series = fam.sel
+		if len(groupBy) == 0 {
+			return res
+		}
+		if shctx.GroupingContext == nil && len(fam.sel) > 0 {
+			// the plan node ignores ErrNotFound of GroupingContextBuild: nothing was grouped
+			res.groupErr = constants.ErrNotFound
+			res.grouped = shctx.SeriesIDsAfterFiltering.ToArray()
+			return res
+		}
+		e.readGroups(sctx, shctx, groupBy, &res)
 		return res
 	}
-	if shctx.GroupingContext == nil && len(fam.sel) > 0 {
-		// the plan node ignores ErrNotFound of GroupingContextBuild: nothing was grouped
-		res.groupErr = constants.ErrNotFound
-		res.grouped = shctx.SeriesIDsAfterFiltering.ToArray()
-		return res
-	}
-	e.readGroups(sctx, shctx, groupBy, &res)
-	return res
+	res = shardRun(0)
+	res2 = shardRun(1)
+	return res, res2
 }
